@@ -122,10 +122,6 @@ theorem count_kept_labels [DecidableEq L] (rows : List (L × List β)) (hnd : (r
 
 /-! ### the multicategorical pipeline -/
 
-/-- the indices the mapper keeps for one cell: every token of the cell's set that the index knows -/
-def tokenIndices (cats : List Key) (c : Cell F) : List Int :=
-  (splitBySep c).filterMap (Pd.lookup (multicatIndex cats))
-
 theorem merged_rows [DecidableEq L] (cats : List Key) (ser : Pd.Series L (Cell F)) :
     Pd.dropna (Pd.mergeLeft (Pd.explode (ser.map fun (l, c) => (l, splitBySep c))) (multicatIndex cats)) =
       ser.flatMap fun p => (splitBySep p.2).filterMap fun t =>
